@@ -9,12 +9,11 @@
 (* bases - equal to the definitional answer.  (That the definitions        *)
 (* themselves commute with renaming is model-checked in MC_Perm.)          *)
 (***************************************************************************)
-EXTENDS AdfSem, AdfSyntax, Json, IOUtils, TLC
+EXTENDS AdfSem, AdfSyntax, ParserOps, SequencesExt, Json, IOUtils, TLC
 
 Rec == ndJsonDeserialize(IOEnv.TRACE)
 VARIABLE l
 
-RangeOf(sq) == { sq[i] : i \in DOMAIN sq }
 Report(ok, id, what, p) == ok \/ PrintT(<<"MISMATCH", l, id, "C10", what, p>>)
 
 \* position of base statement i in the reported order of presentation p
@@ -52,6 +51,14 @@ Check(r) ==
                      (first.calls[di].c = c.c \/ {first.calls[di].c, c.c} \subseteq {"stable", "stable_ng"}) =>
                        Report(Models(p, c, n) = Models(first, first.calls[di], n), r.id, <<"answers-depend-on-presentation", c.c, c.b>>, pi)
               /\ hasOracle => Report(Models(p, c, n) = Oracle(c.c), r.id, <<"differs-from-definition", c.c, c.b>>, pi)
+  \* conformance with ParserState (drift only): the name list is what the s facts and the sort make of it, the dictionary its inverse
+  /\ \A pi \in ok :
+       LET p == r.pres[pi]
+           n0 == NamesAfter(p.sfacts, <<>>)
+           want == IF p.sort = "lexi" THEN SortSeq(n0, LAMBDA a, b : LexLeq(a, b) /\ a # b) ELSE n0
+       IN ("sfacts" \notin DOMAIN p)
+          \/ ((p.sort = "alphanum" \/ p.names = want) /\ p.dictvals = [i \in DOMAIN p.names |-> i - 1])
+          \/ PrintT(<<"DRIFT", l, r.id, <<"parser-state", pi, p.sort>> >>)
   /\ PrintT(<<"INFO", l, r.id, n, Cardinality(ok)>>)
 
 Init == l = 1
